@@ -3,6 +3,7 @@ package sym
 import (
 	"fmt"
 	"go/types"
+	"strings"
 
 	"golang.org/x/tools/go/ssa"
 )
@@ -267,6 +268,54 @@ func (in *Interp) selectOp(fr *frame, instr *ssa.Select) Value {
 		}
 		return res
 	}
+	if nd, _ := in.hostState["selectnondet"].(bool); nd {
+		// evaluate the readiness of every case (this also lets model channels observe the poll),
+		// then explore each ready case
+		var readyIdx []int
+		for i, st := range instr.States {
+			ch, _ := fr.get(st.Chan).(*Chan)
+			if ch == nil {
+				continue
+			}
+			var ready *Term
+			if h, ok := chanReadyHooks[ch.Kind]; ok {
+				ready = h(in, ch)
+			} else if st.Dir == types.RecvOnly {
+				ready = tb.Bool(len(ch.Buf) > 0 || ch.Closed)
+			} else {
+				ready = tb.Bool(len(ch.Buf) < ch.Cap)
+			}
+			if in.Branch(ready) {
+				readyIdx = append(readyIdx, i)
+			}
+		}
+		if len(readyIdx) > 0 {
+			i := readyIdx[in.Choose(len(readyIdx))]
+			st := instr.States[i]
+			ch := fr.get(st.Chan).(*Chan)
+			rix := -1
+			for j := 0; j <= i; j++ {
+				if instr.States[j].Dir == types.RecvOnly {
+					rix++
+				}
+			}
+			if st.Dir == types.RecvOnly {
+				in.hostState["selectcommit"] = true
+				v, ok := in.chanRecv(ch, st.Chan.Type())
+				delete(in.hostState, "selectcommit")
+				return mk(i, ok, rix, v)
+			}
+			in.chanSend(ch, fr.get(st.Send))
+			return mk(i, false, -1, nil)
+		}
+		if !instr.Blocking {
+			return mk(-1, false, -1, nil)
+		}
+		if in.inGoroutine > 0 {
+			panic(&pathEnd{kind: "infeasible", reason: "goroutine blocked in select", blocked: true})
+		}
+		panic(&pathEnd{kind: "infeasible", reason: "select would block forever"})
+	}
 	ri := -1
 	for i, st := range instr.States {
 		if st.Dir == types.RecvOnly {
@@ -368,4 +417,36 @@ func (in *Interp) wakeParked(fr *frame) {
 			in.parked = append(in.parked, g)
 		}
 	}
+}
+
+// laterReady reports whether a case after i is certainly ready (concretely).
+func (in *Interp) laterReady(fr *frame, instr *ssa.Select, i int) bool {
+	for j := i + 1; j < len(instr.States); j++ {
+		st := instr.States[j]
+		ch, _ := fr.get(st.Chan).(*Chan)
+		if ch == nil {
+			continue
+		}
+		if h, ok := chanReadyHooks[ch.Kind]; ok {
+			if ch.Kind == "model" {
+				// model channels: ask without side effects only for timers (always ready)
+				if owner, ok := ch.Data.(Iface); ok && owner.T != nil && strings.Contains(owner.T.String(), "tickModel") {
+					return true
+				}
+				continue
+			}
+			if r := h(in, ch); r.IsTrue() {
+				return true
+			}
+			continue
+		}
+		if st.Dir == types.RecvOnly {
+			if len(ch.Buf) > 0 || ch.Closed {
+				return true
+			}
+		} else if len(ch.Buf) < ch.Cap {
+			return true
+		}
+	}
+	return false
 }
